@@ -246,8 +246,39 @@ pub fn store_scenario(idx: usize, rng: &mut Rng, o: &StoreOpts, family: &str) ->
                 "sbefore":sbefore,"safter":chg::digest(&reader.save())}));
         }
     }
-    // single-bit flips (C14)
+    // single-bit flips (C14): the append-only file; the file followed by a DEFLATE-compressed change chunk
+    // (Change::bytes() of a change above the compression threshold); the whole history as one bundle chunk
     if o.flips > 0 {
+        let mut files: Vec<(&str, Vec<u8>)> = vec![("file", file.clone())];
+        let mut compressed: Option<Vec<u8>> = None;
+        {
+            use automerge::transaction::{CommitOptions, Transactable};
+            let mut d = w.reps[wr].clone();
+            let mut tx = d.transaction();
+            if let Ok(t) = tx.put_object(automerge::ROOT, "big", automerge::ObjType::Text) {
+                // poorly compressible content: most flips leave a stream that still inflates
+                let s: String = (0..300u32).map(|k| char::from(b'a' + ((k * k * 7 + k / 3) % 26) as u8)).collect();
+                let _ = tx.splice_text(&t, 0, 0, &s);
+            }
+            let (h, _) = tx.commit_with(CommitOptions::default().with_time(5).with_message("compressed change"));
+            if let Some(mut c) = h.and_then(|h| d.get_change_by_hash(&h)) {
+                let cb = c.bytes().to_vec();
+                if cb.len() < c.raw_bytes().len() {
+                    let mut f2 = file.clone();
+                    f2.extend_from_slice(&cb);
+                    compressed = Some(f2);
+                }
+            }
+            let all: Vec<automerge::ChangeHash> = w.reps[wr].get_changes(&[]).iter().map(|c| c.hash()).collect();
+            if let Ok(b) = w.reps[wr].bundle(all) {
+                files.push(("bundle", b.bytes().to_vec()));
+            }
+            // (last: its rejection by the known finding on DEFLATE padding bits ends the scenario's validation)
+            if let Some(f2) = compressed {
+                files.push(("file+compressed-change", f2));
+            }
+        }
+        for (kind, file) in files {
         let orig = load_outcome(&file, true, o.enc);
         let nbits = file.len() * 8;
         let mut bits: Vec<usize> = (0..nbits).collect();
@@ -278,8 +309,9 @@ pub fn store_scenario(idx: usize, rng: &mut Rng, o: &StoreOpts, family: &str) ->
                 bad.push(json!({"bit": b, "outcome": res}));
             }
         }
-        w.log.push(json!({"ev":"flips","total_bits":nbits,"flipped":bits.len(),"rejected":nerr,"bad":bad,
+        w.log.push(json!({"ev":"flips","kind":kind,"total_bits":nbits,"flipped":bits.len(),"rejected":nerr,"bad":bad,
             "exhaustive": o.flips >= nbits}));
+        }
     }
     w
 }
